@@ -1,9 +1,9 @@
 #!/bin/sh
-# sweep.sh <seed...> : runs every registered quick check with each base seed; prints a line per run
+# sweep.sh <seed...> : runs every registered quick check (registered budget) with each base seed; prints a line per run
 cd /verif
 for seed in "$@"; do
 for id in $(python3 -c "import json; print(' '.join(c['property_id'] for c in json.load(open('MANIFEST.json'))['checks']))"); do
-  ./check $id quick -seed $seed -seconds 40 -workers 8 > /tmp/sweep_${id}_$seed.log 2>&1
+  ./check $id quick -seed $seed > /tmp/sweep_${id}_$seed.log 2>&1
   echo "$id seed=$seed exit=$? $(grep -a -m1 '^VIOLATION\|^OK\|machinery' /tmp/sweep_${id}_$seed.log | cut -c1-150)"
 done
 done
